@@ -13,3 +13,13 @@ class K:
 
 def shared(a=0):
   return ('shared-sub', a)
+
+
+class Worker:
+  """A class of the same name, with a method of the same name, lives in c19pkg.alt.m2."""
+
+  def __init__(self, n=0):
+    self.n = n
+
+  def run(self, arg=0):
+    return ('run-sub', self.n, arg)
